@@ -74,6 +74,10 @@ EXPLANATION += (
     ' Round 6: the centroids voted on divide by a floored cell count (R-POS/cell-count-denominator, rule of C18).'
 )
 
+EXPLANATION += (
+    ' Round 7: run settings are never replaced on a condition inside the pipeline (R-FWD/setting-not-rebound).'
+)
+
 RULE_TEXT = (
     "one obligation per draw, per block, per indexed comprehension, per "
     "provenance relation, per kernel function x configuration (type and "
